@@ -1,9 +1,12 @@
 #!/bin/bash
 # Prepare Miri's sysroot (offline). The E2 binary itself is built on first use.
 export CARGO_NET_OFFLINE=true
-if ! cargo +nightly miri setup >/tmp/miri-setup.log 2>&1; then
+DIR="$(cd "$(dirname "$0")/.." && pwd)"
+mkdir -p "$DIR/build"
+LOG="$DIR/build/miri-setup.log"
+if ! cargo +nightly miri setup >"$LOG" 2>&1; then
     echo "HARNESS-ERROR cargo +nightly miri setup failed" >&2
-    tail -5 /tmp/miri-setup.log >&2
+    tail -5 "$LOG" >&2
     exit 2
 fi
 exit 0
